@@ -134,10 +134,18 @@ def sort_name(s):
 def opt_sort(s):
     key = str(s)
     if key not in _opt_sorts:
-        d = z3.Datatype('Opt_' + sort_name(s))
-        d.declare('none')
-        d.declare('some', ('val', s))
-        _opt_sorts[key] = d.create()
+        n = sort_name(s)
+        d = z3.Datatype('Opt_' + n)
+        d.declare('none_' + n)
+        d.declare('some_' + n, ('val_' + n, s))
+        srt = d.create()
+        # short aliases (constructor names must be unique across sorts in SMT-LIB text)
+        srt.none = getattr(srt, 'none_' + n)
+        srt.some = getattr(srt, 'some_' + n)
+        srt.val = getattr(srt, 'val_' + n)
+        srt.is_none = getattr(srt, 'is_none_' + n)
+        srt.is_some = getattr(srt, 'is_some_' + n)
+        _opt_sorts[key] = srt
     return _opt_sorts[key]
 
 
